@@ -145,8 +145,11 @@ pub fn step(buf: &mut Buffer, sh: &mut Shadow, op: Op, seq_no: usize) -> Result<
                     raw[i].write(*b);
                 }
             }
-            if buf.as_slice(n) != fill.as_slice() {
-                return Err(format!("as_slice({}) differs from what was received", n));
+            // (works whether as_slice returns the slice or a Result of it)
+            match SliceView::view(&buf.as_slice(n)) {
+                Some(got) if got == fill.as_slice() => {}
+                Some(_) => return Err(format!("as_slice({}) differs from what was received", n)),
+                None => return Err(format!("as_slice({}) refused although {} octets fit the storage", n, n)),
             }
             // storage is shared with the stack: whatever was pushed into the first n octets is gone
             buf.reset();
@@ -211,3 +214,17 @@ pub fn run_seq(seq: &[Op], cap: usize) -> Result<(), (usize, String)> {
     Ok(())
 }
 
+/// Adapter so that the harness builds whether `Buffer::as_slice` hands out the slice itself or a `Result` of it.
+pub trait SliceView {
+    fn view(&self) -> Option<&[u8]>;
+}
+impl SliceView for &[u8] {
+    fn view(&self) -> Option<&[u8]> {
+        Some(self)
+    }
+}
+impl<E> SliceView for Result<&[u8], E> {
+    fn view(&self) -> Option<&[u8]> {
+        self.as_ref().ok().copied()
+    }
+}
